@@ -284,6 +284,21 @@ var moments = ev.Register(&ev.P[momentCase]{
 					LunarUtil.POSITION_XI[k], LunarUtil.POSITION_YANG_GUI[k], LunarUtil.POSITION_YIN_GUI[k], LunarUtil.POSITION_FU[k], LunarUtil.POSITION_FU_2[k], LunarUtil.POSITION_CAI[k])
 			}
 		}
+		// the lunar-month object's Tai Sui direction: by the month's place in the four-month cycle from 寅 (艮, the
+		// stem's own direction, 坤, 巽), a leap month like its regular month
+		{
+			mn := x.lm
+			if mn < 0 {
+				mn = -mn
+			}
+			want := map[int]string{0: "艮", 2: "坤", 3: "巽"}[(mn-1)%4]
+			if (mn-1)%4 == 1 {
+				want = LunarUtil.POSITION_GAN[calendar.NewSolarFromJulianDay(lmo.GetFirstJulianDay()).GetLunar().GetMonthGanIndex()]
+			}
+			if got := lmo.GetPositionTaiSui(); got != want || lmo.GetPositionTaiSuiDesc() != pd(got) {
+				return fmt.Errorf("%v: LunarMonth %d/%d Tai Sui direction %q (%q), the four-month cycle gives %q", c.T, x.l.GetYear(), x.lm, got, lmo.GetPositionTaiSuiDesc(), want)
+			}
+		}
 		// the year's almanac counts: "n <animal/stem> …" where n is the day number, within the first lunar month, of the
 		// first day carrying that branch (stem); the first day's pillar comes from the sexagenary day count
 		if err := yearAlmanac(ly); err != nil {
